@@ -11,7 +11,7 @@ claimed["C13"] = (
  "DESIGN.md 6/C13")
 claimed["C09"] = (
  "stateless schedule exploration of the real code (preemption-bounded DFS, happens-before state caching) with a vector-clock data-race detector on every execution",
- "All 91 two-operation programs (quick: preemption bound 1, bound 2 for 12 core pairs; thorough: bound 2/3 and all 455 three-operation programs at bound 1) over a 13-operation alphabet on one shared provider; every execution is checked for data races on godi's struct fields (vector clocks over mutex/RWMutex/atomic/sync.Map/spawn/join/cancel edges), panics, deadlocks, undocumented errors and lifetime-rule breaches.",
+ "All 91 two-operation programs (quick: preemption bound 1, bound 2 for 10 core pairs; thorough: bound 2/3 and all 455 three-operation programs at bound 1) over a 13-operation alphabet on one shared provider; every execution is checked for data races on godi's struct fields (vector clocks over mutex/RWMutex/atomic/sync.Map/spawn/join/cancel edges), panics, deadlocks, undocumented errors and lifetime-rule breaches.",
  "bounds as stated; races inside user values, reflect, context are out of scope of the detector; the free-running -race pass is not part of the verdict",
  "DESIGN.md 6/C09")
 _life_note = "bounds: <=2 producer templates per configuration; histories to depth 3/4 on <=3 scopes; 2-3 resolver goroutines, preemption bound 2/3"
